@@ -33,12 +33,12 @@ import (
 const shimBase = "github.com/whoisnian/glb/zzverif/"
 
 type pkgConf struct {
-	abs   string // absolute directory (extra packages outside the tree); empty: repo/dir
-	path  string // import path (extra packages); empty: github.com/whoisnian/glb/<dir>
-	dir   string // relative to repo
-	chans bool   // rewrite channels, select, go, timers
-	ctx   bool   // context -> vctx
-	vos   bool   // os / io -> vos
+	abs   string   // absolute directory (extra packages outside the tree); empty: repo/dir
+	path  string   // import path (extra packages); empty: github.com/whoisnian/glb/<dir>
+	dir   string   // relative to repo
+	chans bool     // rewrite channels, select, go, timers
+	ctx   bool     // context -> vctx
+	vos   bool     // os / io -> vos
 	files []string // restrict to these files (nil = all non-test files)
 }
 
@@ -52,14 +52,14 @@ var targets = []pkgConf{
 }
 
 var (
-	repo      = flag.String("repo", "/repo", "tree to instrument")
-	out       = flag.String("out", "", "output directory")
-	shimDir   = flag.String("shim", "", "directory holding the shim packages")
-	only      = flag.String("pkgs", "", "comma-separated subset of package dirs (default all)")
-	consts    = flag.String("const", "", "constant overrides pkgdir:name=value,...")
-	noFields  = flag.Bool("nofields", false, "do not insert field access monitors")
-	extra     = flag.String("extra", "", "extra package to instrument with all rewrites: <abs dir>=<import path>")
-	dump      = flag.Bool("dump", false, "print instrumented sources to stdout")
+	repo     = flag.String("repo", "/repo", "tree to instrument")
+	out      = flag.String("out", "", "output directory")
+	shimDir  = flag.String("shim", "", "directory holding the shim packages")
+	only     = flag.String("pkgs", "", "comma-separated subset of package dirs (default all)")
+	consts   = flag.String("const", "", "constant overrides pkgdir:name=value,...")
+	noFields = flag.Bool("nofields", false, "do not insert field access monitors")
+	extra    = flag.String("extra", "", "extra package to instrument with all rewrites: <abs dir>=<import path>")
+	dump     = flag.Bool("dump", false, "print instrumented sources to stdout")
 )
 
 func fatal(f string, a ...any) {
@@ -168,16 +168,19 @@ type rewriter struct {
 	tmp       int
 
 	// marks made on the way down
-	skipComm   map[ast.Node]bool  // channel operations that belong to a select clause
-	recv2      map[ast.Node]bool  // <-ch whose second result is used
-	chanCall   map[*ast.CallExpr]string // close/len/cap on a channel
-	makeChan   map[*ast.CallExpr]bool
-	rangeChan  map[*ast.RangeStmt]bool
-	writeCtx   map[ast.Expr]bool // selector / ident written by its parent
-	noMonitor  map[ast.Expr]bool // operand of &, or otherwise not to be wrapped
-	labelOf    map[ast.Stmt]*ast.Ident
-	mutatedVar map[types.Object]bool
-	origX      map[*ast.SelectorExpr]ast.Expr // operand of a selector before rewriting
+	skipComm     map[ast.Node]bool        // channel operations that belong to a select clause
+	recv2        map[ast.Node]bool        // <-ch whose second result is used
+	chanCall     map[*ast.CallExpr]string // close/len/cap on a channel
+	makeChan     map[*ast.CallExpr]bool
+	rangeChan    map[*ast.RangeStmt]bool
+	writeCtx     map[ast.Expr]bool // selector / ident written by its parent
+	noMonitor    map[ast.Expr]bool // operand of &, or otherwise not to be wrapped
+	labelOf      map[ast.Stmt]*ast.Ident
+	mutatedVar   map[types.Object]bool
+	origX        map[*ast.SelectorExpr]ast.Expr  // operand of a selector before rewriting
+	wExpr        map[ast.Expr]wInfo              // generated (*vsched.W(&x, name)) expressions
+	rhsType      map[ast.Stmt]types.TypeAndValue // type of the single right-hand side of an assignment, before rewriting
+	lhsPure      map[ast.Stmt]bool               // the assignment's left-hand side can be evaluated twice / later without effect
 	pendingLabel *ast.Ident
 }
 
@@ -401,6 +404,9 @@ func (rw *rewriter) file(f *ast.File) ([]byte, error) {
 	rw.noMonitor = map[ast.Expr]bool{}
 	rw.labelOf = map[ast.Stmt]*ast.Ident{}
 	rw.origX = map[*ast.SelectorExpr]ast.Expr{}
+	rw.wExpr = map[ast.Expr]wInfo{}
+	rw.rhsType = map[ast.Stmt]types.TypeAndValue{}
+	rw.lhsPure = map[ast.Stmt]bool{}
 
 	// build constraints in the header survive, every other comment is dropped
 	var header bytes.Buffer
@@ -523,6 +529,84 @@ func (rw *rewriter) fixImports(f *ast.File) {
 
 // ---------------------------------------------------------------- pre-order marks
 
+// wInfo remembers what a generated write monitor wraps, so that a read monitor of the same
+// location can be generated next to it.
+type wInfo struct {
+	target ast.Expr // x.f or the package variable
+	name   string
+}
+
+// pure reports whether evaluating e has no effect and does not depend on when it is done
+// (identifiers, field selections, dereferences, indexing by such expressions).
+func pure(e ast.Expr) bool {
+	switch x := e.(type) {
+	case *ast.Ident, *ast.BasicLit:
+		return true
+	case *ast.ParenExpr:
+		return pure(x.X)
+	case *ast.SelectorExpr:
+		return pure(x.X)
+	case *ast.StarExpr:
+		return pure(x.X)
+	case *ast.IndexExpr:
+		return pure(x.X) && pure(x.Index)
+	}
+	return false
+}
+
+var opOfAssign = map[token.Token]token.Token{
+	token.ADD_ASSIGN: token.ADD, token.SUB_ASSIGN: token.SUB, token.MUL_ASSIGN: token.MUL, token.QUO_ASSIGN: token.QUO,
+	token.REM_ASSIGN: token.REM, token.AND_ASSIGN: token.AND, token.OR_ASSIGN: token.OR, token.XOR_ASSIGN: token.XOR,
+	token.SHL_ASSIGN: token.SHL, token.SHR_ASSIGN: token.SHR, token.AND_NOT_ASSIGN: token.AND_NOT,
+}
+
+// splitWrite turns `x.f = rhs`, `x.f op= rhs` and `x.f++` on a monitored location into
+//
+//	{ tmp := rhs; x.f = tmp }
+//
+// so that the write monitor runs after the right-hand side has been evaluated: the reads of a
+// read-modify-write statement then come before its write in the monitored order, as they do
+// in the machine code, and a scheduling point put on the write separates the two.
+func (rw *rewriter) splitWrite(c *astutil.Cursor, st ast.Stmt, lhs ast.Expr, tok token.Token, rhs ast.Expr) {
+	wi, ok := rw.wExpr[lhs]
+	if !ok || c.Index() < 0 || !rw.lhsPure[st] {
+		return
+	}
+	rd := func() ast.Expr {
+		return &ast.ParenExpr{X: &ast.StarExpr{X: call(rw.shim("vsched", "R"), &ast.UnaryExpr{Op: token.AND, X: wi.target}, str(wi.name))}}
+	}
+	var val ast.Expr
+	switch {
+	case tok == token.ASSIGN:
+		tv := rw.rhsType[st]
+		if tv.Type == nil || tv.Value != nil || tv.IsNil() {
+			return
+		}
+		if b, ok := tv.Type.(*types.Basic); ok && b.Info()&types.IsUntyped != 0 {
+			return
+		}
+		if _, tuple := tv.Type.(*types.Tuple); tuple {
+			return
+		}
+		val = rhs
+	case tok == token.INC:
+		val = &ast.BinaryExpr{X: rd(), Op: token.ADD, Y: &ast.BasicLit{Kind: token.INT, Value: "1"}}
+	case tok == token.DEC:
+		val = &ast.BinaryExpr{X: rd(), Op: token.SUB, Y: &ast.BasicLit{Kind: token.INT, Value: "1"}}
+	default:
+		op, ok := opOfAssign[tok]
+		if !ok {
+			return
+		}
+		val = &ast.BinaryExpr{X: rd(), Op: op, Y: &ast.ParenExpr{X: rhs}}
+	}
+	tmp := id(rw.fresh("vtmp"))
+	c.Replace(&ast.BlockStmt{List: []ast.Stmt{
+		&ast.AssignStmt{Lhs: []ast.Expr{tmp}, Tok: token.DEFINE, Rhs: []ast.Expr{val}},
+		&ast.AssignStmt{Lhs: []ast.Expr{lhs}, Tok: token.ASSIGN, Rhs: []ast.Expr{tmp}},
+	}})
+}
+
 func (rw *rewriter) markRecv2(lhs int, rhs []ast.Expr) {
 	if lhs == 2 && len(rhs) == 1 {
 		if u, ok := unparen(rhs[0]).(*ast.UnaryExpr); ok && u.Op == token.ARROW {
@@ -584,6 +668,10 @@ func (rw *rewriter) pre(c *astutil.Cursor) {
 			for _, l := range n.Lhs {
 				rw.markWrite(l)
 			}
+			if len(n.Lhs) == 1 && len(n.Rhs) == 1 {
+				rw.rhsType[n] = rw.info.Types[n.Rhs[0]]
+				rw.lhsPure[n] = pure(n.Lhs[0])
+			}
 		}
 	case *ast.ValueSpec:
 		rw.markRecv2(len(n.Names), n.Values)
@@ -599,6 +687,7 @@ func (rw *rewriter) pre(c *astutil.Cursor) {
 		}
 	case *ast.IncDecStmt:
 		rw.markWrite(n.X)
+		rw.lhsPure[n] = pure(n.X)
 	case *ast.RangeStmt:
 		if rw.conf.chans && rw.isChan(n.X) {
 			rw.rangeChan[n] = true
@@ -742,6 +831,12 @@ func (rw *rewriter) post(c *astutil.Cursor) error {
 			m := map[string]string{"close": "Close", "len": "Len", "cap": "Cap"}[b]
 			c.Replace(call(sel(&ast.ParenExpr{X: n.Args[0]}, m)))
 		}
+	case *ast.AssignStmt:
+		if len(n.Lhs) == 1 && len(n.Rhs) == 1 && n.Tok != token.DEFINE {
+			rw.splitWrite(c, n, n.Lhs[0], n.Tok, n.Rhs[0])
+		}
+	case *ast.IncDecStmt:
+		rw.splitWrite(c, n, n.X, n.Tok, nil)
 	case *ast.SendStmt:
 		if rw.conf.chans && !rw.skipComm[n] {
 			c.Replace(&ast.ExprStmt{X: call(sel(&ast.ParenExpr{X: n.Chan}, "Send"), n.Value)})
@@ -1003,7 +1098,11 @@ func (rw *rewriter) monitorField(n *ast.SelectorExpr) ast.Expr {
 	if rw.writeCtx[n] {
 		fn = "W"
 	}
-	return &ast.ParenExpr{X: &ast.StarExpr{X: call(rw.shim("vsched", fn), &ast.UnaryExpr{Op: token.AND, X: n}, str(tn+"."+fld.Name()))}}
+	e := &ast.ParenExpr{X: &ast.StarExpr{X: call(rw.shim("vsched", fn), &ast.UnaryExpr{Op: token.AND, X: n}, str(tn+"."+fld.Name()))}}
+	if fn == "W" {
+		rw.wExpr[e] = wInfo{n, tn + "." + fld.Name()}
+	}
+	return e
 }
 
 func (rw *rewriter) monitorVar(n *ast.Ident, c *astutil.Cursor) ast.Expr {
@@ -1025,5 +1124,9 @@ func (rw *rewriter) monitorVar(n *ast.Ident, c *astutil.Cursor) ast.Expr {
 	if rw.writeCtx[n] {
 		fn = "W"
 	}
-	return &ast.ParenExpr{X: &ast.StarExpr{X: call(rw.shim("vsched", fn), &ast.UnaryExpr{Op: token.AND, X: n}, str(rw.pkg.Name()+"."+v.Name()))}}
+	e := &ast.ParenExpr{X: &ast.StarExpr{X: call(rw.shim("vsched", fn), &ast.UnaryExpr{Op: token.AND, X: n}, str(rw.pkg.Name()+"."+v.Name()))}}
+	if fn == "W" {
+		rw.wExpr[e] = wInfo{n, rw.pkg.Name() + "." + v.Name()}
+	}
+	return e
 }
